@@ -59,15 +59,16 @@ ASSUMPTIONS = [
     "fields are float64; kernels given as 2D (nx,ny) or 3D arrays; a kernel with z-extent > 1 on a 2D domain is wider "
     "than the padded domain and outside the quantifier; FilterConv.override_values (interior overrides) has no "
     "semantics in the statement and is not exercised",
-    "bounds: quick grids <= 6 per axis (3D DensityFilter exhaustive <= 4); thorough DensityFilter exhaustive <= 12x12 / 7^3, random 3D <= 9, FilterConv grids <= 8 per axis; kernel half-width <= n+2 on one axis, <= 3 elsewhere",
+    "bounds: quick grids <= 6 per axis (3D DensityFilter exhaustive <= 4); thorough DensityFilter exhaustive <= 12x12 "
+    "/ 7^3, random 3D <= 9, FilterConv grids <= 8 per axis; kernel half-width <= n+2 on one axis, <= 3 elsewhere",
 ]
 FLOORS = {
     "quick": {"cases_held": 680, "distinct_nontrivial": 480, "dens_entries_compared": 22000,
               "conv_entries_compared": 60000, "constant_checks": 580, "range_checks": 2300, "volume_checks": 340,
               "conv_wide_kernel_cases": 160, "conv_padded_axes_checked": 1250},
-    "thorough": {"cases_held": 8300, "distinct_nontrivial": 4900, "dens_entries_compared": 300000,
-                 "conv_entries_compared": 1200000, "constant_checks": 4800, "range_checks": 19000,
-                 "volume_checks": 3600, "conv_wide_kernel_cases": 1400, "conv_padded_axes_checked": 17000},
+    "thorough": {"cases_held": 15500, "distinct_nontrivial": 7000, "dens_entries_compared": 550000,
+                 "conv_entries_compared": 2500000, "constant_checks": 9000, "range_checks": 36000,
+                 "volume_checks": 8700, "conv_wide_kernel_cases": 2600, "conv_padded_axes_checked": 31000},
 }
 TIMEOUT_CASE = 120
 
